@@ -276,6 +276,15 @@ class Run:
                 # the harness names every field the semantic model lists: a field missing from the emitted struct
                 self.violations.append({'slice': 'engine-b', 'template': cfg['template'], 'query': 'emitted-struct-has-field:%s.%s' % (m609.group(2), m609.group(1)),
                                         'args': [to_i64(x) for x in ws[0].args], 'expected': 'field present in the emitted struct', 'native': txt[:1200]})
+            elif _re.search(r'error\[E0599\]: no (?:associated function or constant|function or associated item|method) named `(\w+)` found for (?:struct|enum) `[\w:]*?(\w+)`', txt) \
+                    or _re.search(r'error\[E0425\]: cannot find function `(get_\w+)`', txt):
+                # the harness calls every accessor / wrapper the semantic model lists: one of them is missing from the emitted text
+                mm = _re.search(r'error\[E0599\]: no (?:associated function or constant|function or associated item|method) named `(\w+)` found for (?:struct|enum) `[\w:]*?(\w+)`', txt)
+                what = ('%s::%s' % (mm.group(2), mm.group(1))) if mm else _re.search(r'cannot find function `(get_\w+)`', txt).group(1)
+                mw = _re.search(r'--> src/w(\d+)/m\.rs', txt)
+                wbad = [w for w in ws if mw and w.idx == int(mw.group(1))] or ws
+                self.violations.append({'slice': 'engine-b', 'template': cfg['template'], 'query': 'emitted-module-has-function:' + what, 'args': [to_i64(x) for x in wbad[0].args],
+                                        'expected': 'every accessor / wrapper of the resolved model is present in the emitted module', 'native': txt[:1500]})
             elif _re.search(r'error\[E06(03|16|24)\][^\n]*\n\s*--> src/lib\.rs', txt):
                 # the probe outside the emitted module names everything the semantic model marks public
                 self.violations.append({'slice': 'engine-b', 'template': cfg['template'], 'query': 'resolved-public-item-is-emitted-public', 'args': [to_i64(x) for x in ws[0].args],
